@@ -119,6 +119,8 @@ theorem verifyRound_clean (H : Sigma.Hash) (S : State) (hp : S.G.p ≠ 0) (s s2 
   unfold StackEq.verifyRound
   by_cases hlen : ss.length = s.length
   · rw [if_neg (by simpa using hlen)]
+    split
+    · exact clean_ok _
     refine clean_bind _ _ ?_ (fun s4 _ => ?_)
     · apply mix_clean S hp false _ ss _ hidx
       cases b
